@@ -4,7 +4,7 @@
 # fails with it and passes without), stores it under /verif/seeded/<tag>/ and runs the property's check
 # against it in /repo (apply, run, undo).
 set -u
-id=$1; src=$2; tag=${3:-$id}
+id=$1; src=$2; tag=${3:-$id}; DEMOFLAGS=${DEMOFLAGS:-}
 export GOFLAGS=-mod=mod GOPROXY=off GOSUMDB=off GOTOOLCHAIN=local
 here=$(cd "$(dirname "$0")/.." && pwd)
 wt=/tmp/sv-$tag
@@ -12,14 +12,14 @@ git -C /repo worktree remove --force $wt >/dev/null 2>&1; rm -rf $wt
 git -C /repo worktree add --detach $wt HEAD -q || exit 3
 trap 'git -C /repo worktree remove --force '$wt' >/dev/null 2>&1; rm -rf '$wt'' EXIT
 cp -r $src/seeddemo $wt/seeddemo 2>/dev/null
-res_without=$(cd $wt && go test -mod=mod -vet=off -count=1 ./seeddemo/... >/tmp/sv-$tag.without.log 2>&1; echo $?)
+res_without=$(cd $wt && go test $DEMOFLAGS -mod=mod -vet=off -count=1 ./seeddemo/... >/tmp/sv-$tag.without.log 2>&1; echo $?)
 (cd $wt && git apply $src/seed.patch) || { echo "PATCH DOES NOT APPLY"; exit 3; }
 res_build=$(cd $wt && go build ./... >/dev/null 2>&1; echo $?)
 res_tests=$(cd $wt && go test -mod=mod -vet=off -count=1 $(go list ./... | grep -v seeddemo) >/tmp/sv-$tag.tests.log 2>&1; echo $?)
-res_with=$(cd $wt && go test -mod=mod -vet=off -count=1 ./seeddemo/... >/tmp/sv-$tag.with.log 2>&1; echo $?)
+res_with=$(cd $wt && go test $DEMOFLAGS -mod=mod -vet=off -count=1 ./seeddemo/... >/tmp/sv-$tag.with.log 2>&1; echo $?)
 echo "build=$res_build tests=$res_tests demo_with_change=$res_with demo_without_change=$res_without"
 if [ "$res_build" != 0 ] || [ "$res_tests" != 0 ] || [ "$res_with" = 0 ] || [ "$res_without" != 0 ]; then
-  echo "NOT CONFIRMED: build/tests must be 0, demo must fail with the change and pass without"; tail -5 /tmp/sv-$tag.with.log /tmp/sv-$tag.without.log /tmp/sv-$tag.tests.log; rm -f /tmp/sv-$tag.*.log; exit 4
+  echo "NOT CONFIRMED: build/tests must be 0, demo must fail with the change and pass without"; tail -n 5 /tmp/sv-$tag.with.log /tmp/sv-$tag.without.log /tmp/sv-$tag.tests.log; rm -f /tmp/sv-$tag.*.log; exit 4
 fi
 mkdir -p $here/seeded/$tag
 cp $src/seed.patch $here/seeded/$tag/patch.diff
@@ -53,10 +53,10 @@ meta = {
   "confirmation": {
     "ran": [
       "git worktree add --detach /tmp/sv-%s HEAD (fresh scratch worktree, removed afterwards)" % tag,
-      "go test ./seeddemo/... without the change: pass (exit 0)",
+      "go test %s ./seeddemo/... without the change: pass (exit 0)" % os.environ.get("DEMOFLAGS",""),
       "git apply patch.diff; go build ./...: exit 0",
       "go test -mod=mod -vet=off -count=1 <all packages except seeddemo>: exit 0 (existing suite passes with the change)",
-      "go test ./seeddemo/... with the change: FAIL (exit 1)",
+      "go test %s ./seeddemo/... with the change: FAIL (exit 1)" % os.environ.get("DEMOFLAGS",""),
     ],
   },
   "check_result": {
